@@ -23,7 +23,10 @@ UNIT = dict(
 pub enum __Role { Active, External }
 #[verifier::external_body]
 pub fn __abs_thread_threshold_ext(sampled: __Role, queue: &mut Vec<Item>, work: &mut Vec<Item>)
-    requires sampled == __Role::External, old(queue)@.len() == 0, old(work)@.len() == 0,
+    requires
+        sampled == __Role::External, // @ob C07.V.single_player_iter.frontier_follows_sampled_player
+        old(queue)@.len() == 0, // @ob C07.V.single_player_iter.workspace_fresh
+        old(work)@.len() == 0, // @ob C07.V.single_player_iter.workspace_fresh
 { unimplemented!() }
 // only the UPDATING player's infosets are advanced (regret matching / discounting) after its pass
 #[verifier::external_body]
@@ -60,23 +63,40 @@ impl Tgt { #[verifier::external_body] pub fn get(&self) -> usize { unimplemented
              table=[
                  (r"^let \[(\w+), (\w+)\] = player_infosets;$", ("abstract", "let \\1 = __Role::Active; let \\2 = __Role::External;")),
                  (r"^thread_threshold::<FIRST>\( root, chance_infosets, (\w+), target, &mut work\.queue, &mut work\.work, \);$",
-                  ("abstract", "__abs_thread_threshold_ext(\\1, &mut work.queue, &mut work.work); // @ob C07.V.single_player_iter.frontier_follows_sampled_player")),
+                  ("abstract", "__abs_thread_threshold_ext(\\1, &mut work.queue, &mut work.work);")),
                  (r"^work\.payoffs \.par_extend\(work\.queue\.par_drain\(\.\.\)\.map\(\|node\| \{ let payoff = recurse_regret::<FIRST>\( node, chance_infosets, (\w+), (\w+), &\(\), \); \(ByAddress\(node\), payoff\) \}\)\);$",
-                  ("abstract", "__abs_roles(\\1, \\2); __abs_par_drain_into(&mut work.payoffs, &mut work.queue); // @ob C07.V.workspace_fresh.payoff_cache")),
+                  ("abstract", "__abs_roles(\\1, \\2); __abs_par_drain_into(&mut work.payoffs, &mut work.queue); // @ob C07.V.single_player_iter.workspace_fresh")),
                  (r"^recurse_regret::<FIRST>\( root, chance_infosets, (\w+), (\w+), &work\.payoffs, \);$", ("abstract", "__abs_roles(\\1, \\2); // @ob C07.V.single_player_iter.traversal_roles")),
                  (r"^chance_infosets \.iter_mut\(\) \.for_each\(\|info\| info\.get_mut\(\)\.unwrap\(\)\.advance\(\)\);$", ("abstract", "__abs_rearm_chance_draws(&mut __draws);"), "optional"),
                  (r"^(\w+) \.par_iter_mut\(\) \.map\(\|info\| info\.get_mut\(\)\.unwrap\(\)\.advance::<FIRST>\(it, params\)\) \.sum\(\)$", ("abstract", "{ proof { assert(__draws.rearmed@); } // @ob C10.V.single_player_iter.fresh_draw_next_pass\n __abs_advance(\\1) }")),
              ],
              entry="let mut __draws = __draws_of_this_pass();",
+             # the modular contract "fresh in, fresh out" is a CANDIDATE (Houdini): a variant that empties the
+             # workspace at the start of the pass instead of at its end satisfies the real obligations -- the
+             # preconditions of the frontier construction and of the drain into the payoff cache -- without it
              contract="""requires
-    old(work).fresh(), // the pass starts from a workspace that describes no earlier pass
+    true,
+    old(work).queue@.len() == 0, // @cand queue_empty_between_passes
+    old(work).work@.len() == 0, // @cand work_empty_between_passes
+    map_len(&old(work).payoffs) == 0, // @cand payoffs_empty_between_passes
 ensures
-    final(work).fresh(), // @ob C07.V.single_player_iter.workspace_fresh"""),
+    true,
+    final(work).queue@.len() == 0, // @cand queue_empty_between_passes
+    final(work).work@.len() == 0, // @cand work_empty_between_passes
+    map_len(&final(work).payoffs) == 0, // @cand payoffs_empty_between_passes"""),
         dict(raw="""// the contract just proved for single_player_iter, used modularly at its two call sites
 #[verifier::external_body]
 pub fn __abs_single_player_iter(work: &mut Workspace) -> (r: f64)
-    requires old(work).fresh(),
-    ensures final(work).fresh(),
+    requires
+        true,
+        old(work).queue@.len() == 0, // @cand queue_empty_between_passes
+    old(work).work@.len() == 0, // @cand work_empty_between_passes
+    map_len(&old(work).payoffs) == 0, // @cand payoffs_empty_between_passes
+    ensures
+        true,
+        final(work).queue@.len() == 0, // @cand queue_empty_between_passes
+        final(work).work@.len() == 0, // @cand work_empty_between_passes
+        map_len(&final(work).payoffs) == 0, // @cand payoffs_empty_between_passes
 { unimplemented!() }"""),
         dict(file="src/solve/external.rs", path="fn solve_external_multi", closure=0, header_re=r"^\|_\|$",
              as_fn="solve_external_multi__scope_body", params="max_iter: u64, target: Tgt",
@@ -90,7 +110,7 @@ pub fn __abs_single_player_iter(work: &mut Workspace) -> (r: f64)
                  (r"^if .* \{ break; \}$", ("abstract_break", "if __abs_stop() { break; }")),
                  (r"^chance_infosets \.iter_mut\(\) \.for_each\(", ("abstract", ""), "optional"),
              ]},
-             loops={0: dict(kind="for", head="invariant work.fresh(), // @ob C07.V.solve_external_multi.workspace_fresh")},
+             loops={0: dict(kind="for", head="invariant\n    true,\n    work.queue@.len() == 0, // @cand queue_empty_between_passes\n    work.work@.len() == 0, // @cand work_empty_between_passes\n    map_len(&work.payoffs) == 0, // @cand payoffs_empty_between_passes")},
         ),
     ],
 )
